@@ -202,6 +202,7 @@ func (st *c09State) apply(a Action) {
 		}
 		st.faulted[X.NameID()] = true
 		res.Probe("link-table-write-faults")
+		res.Probe("fault:sql-statement-failure")
 	case "connect-new-dup":
 		if st.newN >= 3 {
 			return
